@@ -12,7 +12,7 @@ from ..lib import load
 from . import common as C
 
 ID = "C13"
-BUDGET = {"quick": 24000, "thorough": 640000}
+BUDGET = {"quick": 32000, "thorough": 640000}
 SOFT = {"quick": 85, "thorough": 570}
 RULE = ("metamorphic: a case is (base operand pair, T) with T = signed axis permutation (all 48, cycled exhaustively per base "
         "pair family) o lattice translation o scale k in {1/2,1,2,3}; base pairs from the C01-C05/C10/C11 generators over all "
